@@ -409,6 +409,17 @@ func genLeaf(r *rand.Rand, t *Table, mode string) *Node {
 	case (c.Type == tString || c.Type == tTag) && mode == "matchphrase" && r.IntN(2) == 0:
 		n.Op = "MATCHPHRASE"
 		n.Lit = &Lit{Kind: tString, S: pick(r, phraseLits)}
+		if len(t.Rows) > 0 && r.IntN(2) == 0 {
+			// a token (or two adjacent tokens) of a value that occurs in the column
+			if v := t.Rows[r.IntN(len(t.Rows))].V[idx]; !v.Null && v.S != "" {
+				toks := strings.Split(v.S, " ")
+				k := r.IntN(len(toks))
+				n.Lit.S = toks[k]
+				if k+1 < len(toks) && r.IntN(3) == 0 {
+					n.Lit.S = toks[k] + " " + toks[k+1]
+				}
+			}
+		}
 		return n
 	case (c.Type == tString || c.Type == tTag) && mode == "like" && r.IntN(2) == 0:
 		n.Op = "LIKE"
